@@ -177,8 +177,14 @@ type textProgressBar struct {
 	colorB          *colorful.Color
 }
 
+const kMaxTmuxPaneColumns = 10000
+
 func newTextProgressBar(writer io.Writer, columns int32, tmuxPaneColumns int32,
 	tmuxPrefix, colorPair string) *textProgressBar {
+	// the tmux pane width comes from the peer, ignore an absurd one
+	if tmuxPaneColumns > kMaxTmuxPaneColumns {
+		tmuxPaneColumns = 0
+	}
 	if tmuxPaneColumns > 1 {
 		columns = tmuxPaneColumns - 1 //  -1 to avoid messing up the tmux pane
 	}
